@@ -987,7 +987,10 @@ fn c18(st: &mut Stats, max: u32) -> Res {
     mods.dedup();
     for m in &mods {
         for ident in ["Z", "", "r#r#q"] {
-            for table in [&[][..], &[("a", "X"), ("", "root")][..], &[("9", "nine")][..]] {
+            // tables incl. chains (the replacement of an earlier entry is the search key of a later one), swaps and duplicate keys:
+            // every segment is looked up ONCE, the first matching entry wins, a replacement is never searched again
+            for table in [&[][..], &[("a", "X"), ("", "root")][..], &[("9", "nine")][..], &[("a", "Z"), ("Z", "a")][..], &[("a", "r#b"), ("r#b", "9")][..],
+                          &[("9", "a"), ("a", "9")][..], &[("a", "X"), ("a", "9")][..]] {
                 st.cases += 1;
                 let module: &'static str = leak(m.clone());
                 // oracle: split on "::" by hand
@@ -1210,7 +1213,21 @@ fn small_registries() -> Vec<PortableRegistry> {
     regs.push(PortableRegistry { types: vec![PortableType { id: 0, ty: ptype(&["Wide"], vec![], TypeDef::Composite(TypeDefComposite { fields }), &docs_ref) }] });
     regs.push(PortableRegistry { types: vec![PortableType { id: 0, ty: ptype(&[], vec![], TypeDef::Tuple(TypeDefTuple { fields: (0..16500u32).map(sym).collect() }), &[]) }] });
     regs.push(PortableRegistry { types: vec![PortableType { id: 1 << 30, ty: ptype(&["ü", ""], vec![("T", Some(1 << 14)), ("Ü", None)], TypeDef::Primitive(TypeDefPrimitive::I256), &["", "long doc line ✓"]) }] });
+    // MANY entries: table lengths around the compact-length boundaries and round numbers an implementation might cap at
+    // (64, 4096 / 4097, 16383 / 16384, 65536 / 65537)
+    for n in [64u32, 4096, 4097, 16384, 65537] {
+        regs.push(PortableRegistry { types: (0..n).map(|i| PortableType { id: i, ty: ptype(&[], vec![], TypeDef::Primitive(if i % 2 == 0 { TypeDefPrimitive::U8 } else { TypeDefPrimitive::Bool }), &[]) }).collect() });
+    }
     regs
+}
+/// Debug text of a value, cut to a readable length (registries of thousands of entries are in the pools)
+fn brief<T: std::fmt::Debug>(t: &T) -> String {
+    let s = format!("{:?}", t);
+    if s.chars().count() > 1500 {
+        format!("{} ... ({} characters in all)", s.chars().take(1500).collect::<String>(), s.chars().count())
+    } else {
+        s
+    }
 }
 fn c07(st: &mut Stats, _max: u32) -> Res {
     let regs = small_registries();
@@ -1219,17 +1236,17 @@ fn c07(st: &mut Stats, _max: u32) -> Res {
         st.cases += 1;
         st.nontrivial += 1;
         let bytes = r.encode();
-        ensure!(bytes == r.encode(), "encoding is not deterministic for {:?}", r);
+        ensure!(bytes == r.encode(), "encoding is not deterministic for {}", brief(r));
         let mut input = &bytes[..];
         let back = PortableRegistry::decode(&mut input);
-        ensure!(back.as_ref().ok() == Some(r) && input.is_empty(), "decode(encode(r)) = {:?} leaving {} bytes, r = {:?}", back, input.len(), r);
+        ensure!(back.as_ref().ok() == Some(r) && input.is_empty(), "decode(encode(r)) = {} ({} entries) leaving {} bytes, r = {} ({} entries)", brief(&back), back.as_ref().map(|b| b.types.len()).unwrap_or(0), input.len(), brief(r), r.types.len());
         let mut with_tail = bytes.clone();
         with_tail.extend_from_slice(&[0xAA, 0x00, 0xFF]);
         let mut input = &with_tail[..];
         let back = PortableRegistry::decode(&mut input);
-        ensure!(back.as_ref().ok() == Some(r) && input == &[0xAA, 0x00, 0xFF][..], "decode does not consume exactly the encoding of {:?}", r);
+        ensure!(back.as_ref().ok() == Some(r) && input == &[0xAA, 0x00, 0xFF][..], "decode does not consume exactly the encoding of {} ({} entries)", brief(r), r.types.len());
         if let Some(j) = seen.insert(bytes, i) {
-            ensure!(regs[j] == *r, "two different registries share an encoding: {:?} and {:?}", regs[j], r);
+            ensure!(regs[j] == *r, "two different registries share an encoding: {} and {}", brief(&regs[j]), brief(r));
         }
     }
     Ok(())
@@ -1266,10 +1283,10 @@ fn c14_decode(st: &mut Stats) -> Res {
                 (d, v.len() - input.len())
             });
             match res {
-                Err(_) => return Err(format!("decoding {:?} panicked", v)),
+                Err(_) => return Err(format!("decoding {} panicked", brief(&v))),
                 Ok((Ok(w), used)) => {
                     st.nontrivial += 1;
-                    ensure!(w.encode() == v[..used], "decoded {:?} from {:?} but it re-encodes to {:?}, not to the {} bytes consumed", w, v, w.encode(), used);
+                    ensure!(w.encode() == v[..used], "decoded {} ({} entries) from {} but it re-encodes to {} ({} bytes), not to the {} bytes consumed", brief(&w), w.types.len(), brief(&v), brief(&w.encode()), w.encode().len(), used);
                 }
                 Ok((Err(_), _)) => {}
             }
